@@ -137,7 +137,7 @@ class SigmaCorrelationCondition:
                 cond_op = SigmaCorrelationConditionOperator[op.upper()]
                 try:
                     cond_count = int(d[op])
-                except ValueError:
+                except (ValueError, TypeError):
                     raise sigma_exceptions.SigmaCorrelationConditionError(
                         f"'{ d[op] }' is no valid Sigma correlation condition count", source=source
                     )
@@ -154,7 +154,7 @@ class SigmaCorrelationCondition:
             cond_percentile = int(d["percentile"])
         except KeyError:
             cond_percentile = None
-        except ValueError:
+        except (ValueError, TypeError):
             raise sigma_exceptions.SigmaCorrelationConditionError(
                 f"'{ d['percentile'] }' is no valid Sigma correlation condition percentile",
                 source=source,
@@ -352,7 +352,7 @@ class SigmaCorrelationTimespan:
                     "y": 31556952,
                 }[self.unit]
             )
-        except (ValueError, KeyError):
+        except (ValueError, KeyError, TypeError, IndexError):  # also: no string at all
             raise sigma_exceptions.SigmaTimespanError(f"Timespan '{ self.spec }' is invalid.")
 
 
@@ -524,12 +524,19 @@ class SigmaCorrelationRule(SigmaRuleBase, ProcessingItemTrackingMixin):
     ) -> Self:
         kwargs, errors = super().from_dict_common_params(rule, collect_errors, source)
         correlation_rule = rule.get("correlation", dict())
+        if not isinstance(correlation_rule, dict):
+            errors.append(
+                sigma_exceptions.SigmaCorrelationRuleError(
+                    "Sigma correlation definition must be a map", source=source
+                )
+            )
+            correlation_rule = dict()
 
         # Correlation type
         correlation_type = correlation_rule.get("type")
         if correlation_type is not None:
             try:
-                correlation_type = SigmaCorrelationType[correlation_type.upper()]
+                correlation_type = SigmaCorrelationType[str(correlation_type).upper()]
             except KeyError:
                 errors.append(
                     sigma_exceptions.SigmaCorrelationTypeError(
@@ -614,7 +621,11 @@ class SigmaCorrelationRule(SigmaRuleBase, ProcessingItemTrackingMixin):
         aliases = correlation_rule.get("aliases")
         if aliases is not None:
             if isinstance(aliases, dict):
-                aliases = SigmaCorrelationFieldAliases.from_dict(aliases)
+                try:
+                    aliases = SigmaCorrelationFieldAliases.from_dict(aliases)
+                except sigma_exceptions.SigmaError as e:
+                    errors.append(e)
+                    aliases = SigmaCorrelationFieldAliases()
             else:
                 errors.append(
                     sigma_exceptions.SigmaCorrelationRuleError(
@@ -626,12 +637,18 @@ class SigmaCorrelationRule(SigmaRuleBase, ProcessingItemTrackingMixin):
 
         # Condition - can be either a dict (basic condition) or a string (extended condition)
         condition_value = correlation_rule.get("condition")
-        condition: SigmaCorrelationCondition | SigmaExtendedCorrelationCondition
+        # placeholder used if no valid condition can be determined (an error is recorded in this case)
+        condition: SigmaCorrelationCondition | SigmaExtendedCorrelationCondition = (
+            SigmaCorrelationCondition(SigmaCorrelationConditionOperator.GTE, 1, source=source)
+        )
 
         if condition_value is not None:
             if isinstance(condition_value, dict):
                 # Basic condition
-                condition = SigmaCorrelationCondition.from_dict(condition_value, source=source)
+                try:
+                    condition = SigmaCorrelationCondition.from_dict(condition_value, source=source)
+                except sigma_exceptions.SigmaError as e:
+                    errors.append(e)
             elif isinstance(condition_value, str):
                 # Extended condition - only valid for temporal types
                 if correlation_type not in (
